@@ -88,6 +88,11 @@ CLAIMED = {
          '(the listed finding as a theorem about the model); ppf/cdf values and ppf nodes of real generators compared with the model on non-uniform grids, sharp edges, trailing/leading zeros; '
          'the statement evaluated on the implementation incl. bounded sampling with bounds exactly 0.0, k = 2, 3 on smooth densities, auxiliary-variable slices, negative densities refused.',
          'Lean kernel + Mathlib; model + generators; FITPACK for k ≥ 2 not modelled (oracle only, partial); known findings: k = 1 interior zero stretches, k ≥ 2 undershoot ⇒ non-monotone ppf.'),
+ 'C01': ('proof', 'Lean 4 theorems (incl. two integrals by the fundamental theorem of calculus) about the generated azimuthal pdf/cdf/fold/Stokes formulas; the ppf table accuracy is a measured hypothesis',
+         'az_cdf_hasDerivAt, az_cdf_endpoints, az_pdf_nonneg/pos, az_cdf_strictMono, az_fold_cos2/sin2/range, stokes_of_fold, stokes_cols_norm, az_mean_q, az_mean_u '
+         '(E[2cos2φ] = m cos2φ₀, E[2sin2φ] = m sin2φ₀), inverse_transform(_eps), az_sampling_law; oracles: ε of the real table, midpoint grids of u through the real rvs_phi '
+         '(exact data flow, Stokes means, histogram) over IRF sets × DU × (E, P, φ₀) incl. integer/scalar degrees, model components with E/t dependence, simulate→PCUBE closure.',
+         'Lean kernel + Mathlib; translator; partial: the FITPACK-inverted ppf table is measured (ε ≤ 2e-4, observed 4.6e-5), not proved; numpy.random uniformity; one fixed-seed 6.5σ closure.'),
 }
 NOT_YET = 'check not built yet in this round (work in progress; see DESIGN.md section 7 for the planned model and theorems)'
 
